@@ -1423,3 +1423,24 @@ package analysis
 //@   loop 1: invariant forall k string :: old(k in dom(res)) ==> k in dom(res)
 //@   loop 1: invariant allInline(parameters) ==> forall i in 0..idx :: mapKeyFromParam(parameters[i]) in dom(res) && (exists j in i..idx :: res[mapKeyFromParam(parameters[i])] == parameters[j] && mapKeyFromParam(parameters[j]) == mapKeyFromParam(parameters[i]))
 //@   loop 1: invariant allInline(parameters) ==> forall k in dom(res) :: old(k in dom(res)) && res[k] == old(res[k]) || (exists i in 0..idx :: k == mapKeyFromParam(parameters[i]))
+
+//@ fun noOp(s *Spec, method string, path string) bool = !(path in dom(docPaths(s)) && opAtM(docPaths(s)[path], strings.ToUpper(method)) != nil)
+//@ fun fromLists(s *Spec, a []spec.Parameter, b []spec.Parameter, k string, v spec.Parameter) bool = (exists i in 0..len(a) :: entryFor(s, a[i], k, v)) || (exists i in 0..len(b) :: entryFor(s, b[i], k, v))
+
+//@ func (s *Spec) SafeParamsFor(method, path, callmeOnError)
+//@   requires s != nil && s.spec != nil && wfOps(s)
+//@   modifies nothing
+//@   panics when callmeOnError == nil
+//@   ensures result != nil && fresh(result)
+//@   ensures noOp(s, method, path) ==> len(result) == 0
+//@   ensures !noOp(s, method, path) ==> forall k in dom(result) :: fromLists(s, docPaths(s)[path].Parameters, opAtM(docPaths(s)[path], strings.ToUpper(method)).Parameters, k, result[k])
+//@   ensures !noOp(s, method, path) && allInline(docPaths(s)[path].Parameters) && allInline(opAtM(docPaths(s)[path], strings.ToUpper(method)).Parameters) ==> (forall i in 0..len(opAtM(docPaths(s)[path], strings.ToUpper(method)).Parameters) :: mapKeyFromParam(opAtM(docPaths(s)[path], strings.ToUpper(method)).Parameters[i]) in dom(result) && (exists j in i..len(opAtM(docPaths(s)[path], strings.ToUpper(method)).Parameters) :: result[mapKeyFromParam(opAtM(docPaths(s)[path], strings.ToUpper(method)).Parameters[i])] == opAtM(docPaths(s)[path], strings.ToUpper(method)).Parameters[j]))
+//@   ensures !noOp(s, method, path) && allInline(docPaths(s)[path].Parameters) && allInline(opAtM(docPaths(s)[path], strings.ToUpper(method)).Parameters) ==> (forall i in 0..len(docPaths(s)[path].Parameters) :: mapKeyFromParam(docPaths(s)[path].Parameters[i]) in dom(result))
+
+//@ func (s *Spec) ParamsFor(method, path)
+//@   requires s != nil && s.spec != nil && wfOps(s)
+//@   modifies nothing
+//@   maypanic
+//@   ensures result != nil && fresh(result)
+//@   ensures noOp(s, method, path) ==> len(result) == 0
+//@   ensures !noOp(s, method, path) ==> forall k in dom(result) :: fromLists(s, docPaths(s)[path].Parameters, opAtM(docPaths(s)[path], strings.ToUpper(method)).Parameters, k, result[k])
